@@ -3,5 +3,6 @@ import Librfn.Props.C16
 import Librfn.Props.C17
 import Librfn.Props.C18
 import Librfn.Props.C18Tie
+import Librfn.Props.C09
 import Librfn.Props.C19
 import Librfn.Props.C20
